@@ -20,7 +20,7 @@ def universe_hash():
 
 
 def plan(tier, seed, complete=False):
-    items, zinfo = PL.plan_docs(tier, seed, complete)
+    items, zinfo = PL.plan_docs(tier, seed, complete, check="C02")
     return {
         "items": items, "zones": zinfo, "exhaustive": False,
         "rule": "documents of the frozen universes Z1 (all), Z2/Z3/Z4 (seed-chosen indices; thorough: all); identity oracle "
